@@ -10,6 +10,7 @@ use crate::guard::catch;
 use crate::observe::{Cx, Obs, Sym};
 use crate::rng::{Digest, Rng};
 use crate::scen::{SOut, Scenario};
+use flatcontainer::impls::deduplicate::CollapseSequence;
 use flatcontainer::impls::huffman_container::HuffmanContainer;
 use flatcontainer::{Push, Region};
 use serde_json::{json, Value as J};
@@ -28,6 +29,10 @@ pub enum HOp {
     /// dst.clone_from(&src): the destination keeps nothing of its own history
     CloneFrom { src: usize, dst: usize },
     Copy { src: usize, h: usize, dst: usize, via_owned: bool },
+    /// push a read item of container `src` into the collapsing container (C11 over a Huffman region)
+    CzCopy { src: usize, h: usize },
+    /// replace the collapsing container by merge_regions of itself (its inner container becomes coded)
+    CzMerge,
 }
 
 fn profile_counts(profile: u8, k: u32) -> Vec<u64> {
@@ -119,6 +124,8 @@ impl HuffScen {
     where
         HuffmanContainer<B>: Obs<Owned = Vec<B>, Index = (usize, usize)> + for<'a> Push<&'a [B]> + Push<Vec<B>> + for<'a> Push<&'a Vec<B>> + Clone,
         for<'a> HuffmanContainer<B>: Push<<HuffmanContainer<B> as Region>::ReadItem<'a>>,
+        for<'a> CollapseSequence<HuffmanContainer<B>>: Push<<HuffmanContainer<B> as Region>::ReadItem<'a>>,
+        CollapseSequence<HuffmanContainer<B>>: Obs<Owned = Vec<B>, Index = (usize, usize)>,
     {
         let mut out = SOut::default();
         let mut dig = Digest::default();
@@ -129,6 +136,8 @@ impl HuffScen {
             match prop {
                 1 => matches!(o, "just-pushed-item-differs" | "just-pushed-differs" | "push-refused-inside-statistics" | "refused-representable-input" | "merge-panicked"),
                 2 => matches!(o, "earlier-item-differs"),
+                // C11: a collapsing region over a Huffman container
+                11 => o.starts_with("collapse-"),
                 // C14: region-to-region pushes of read items must be accepted and read back equal
                 14 | 20 => matches!(o, "just-pushed-item-differs" | "push-refused-inside-statistics" | "merge-panicked" | "bits-not-sum-of-code-lengths"),
                 // C04 is about the strings handed out: read-back oracles only
@@ -136,6 +145,13 @@ impl HuffScen {
                 _ => true,
             }
         };
+        // a collapsing region over a Huffman container, fed only by read items of other containers
+        let mut cz: CollapseSequence<HuffmanContainer<B>> = Default::default();
+        let mut cz_coded = false;
+        let mut cz_accept: BTreeSet<u32> = BTreeSet::new();
+        let mut cz_stats: BTreeSet<u32> = BTreeSet::new();
+        let mut cz_last: Option<((usize, usize), Vec<u32>)> = None;
+        let mut cz_dead = false;
         let fail = move |o: &str, step: usize, d: String| -> Option<(String, usize, String)> {
             if allowed(o) { Some((format!("C{prop:02}/huff/{o}"), step, d)) } else { Some((format!("foreign/{o}"), step, d)) }
         };
@@ -352,6 +368,78 @@ impl HuffScen {
                     d.generation = generation;
                     out.hit("clone_from");
                     reread!(di, true, step);
+                }
+                HOp::CzMerge => {
+                    if cz_dead {
+                        continue;
+                    }
+                    match catch(|| CollapseSequence::<HuffmanContainer<B>>::merge_regions(std::iter::once(&cz))) {
+                        Ok(n) => {
+                            cz = n;
+                            cz_coded = true;
+                            cz_accept = std::mem::take(&mut cz_stats);
+                            cz_last = None;
+                            out.hit("collapse_container_merged");
+                        }
+                        Err(p) => {
+                            out.fail = fail("collapse-merge-panicked", step, p.short());
+                            return out;
+                        }
+                    }
+                }
+                HOp::CzCopy { src, h } => {
+                    if cz_dead {
+                        continue;
+                    }
+                    let si = src % pop.len();
+                    if pop[si].model.is_empty() {
+                        continue;
+                    }
+                    let mi = h % pop[si].model.len();
+                    let (idx, vals, syms) = pop[si].model[mi].clone();
+                    let in_contract = !cz_coded || syms.iter().all(|x| cz_accept.contains(x));
+                    let r = catch(|| cz.push(pop[si].c.index(idx)));
+                    match r {
+                        Err(p) => {
+                            if in_contract {
+                                out.fail = fail("collapse-push-panicked", step, format!("pushing read item {:?} into the collapsing region panicked: {}", syms, p.short()));
+                                return out;
+                            }
+                            cz_dead = true;
+                        }
+                        Ok(ci) => {
+                            if !in_contract {
+                                cz_dead = true;
+                                continue;
+                            }
+                            let equal_to_last = cz_last.as_ref().map(|l| l.1 == syms).unwrap_or(false);
+                            if equal_to_last {
+                                out.hit("collapse_equal_read_item");
+                                if pop[si].coded && cz_coded {
+                                    out.hit("collapse_equal_encoded_vs_encoded");
+                                }
+                                if cz_last.as_ref().unwrap().0 != ci {
+                                    out.fail = fail("collapse-equal-not-collapsed", step, format!("read item {:?} (from a {} container) equals the preceding item but got a new index {:?} (previous {:?})", syms, if pop[si].coded { "coded" } else { "raw" }, ci, cz_last.as_ref().unwrap().0));
+                                    return out;
+                                }
+                            } else {
+                                for x in &syms {
+                                    cz_stats.insert(*x);
+                                }
+                                if !syms.is_empty() && cz_last.as_ref().map(|l| l.0 == ci).unwrap_or(false) {
+                                    out.fail = fail("collapse-unequal-collapsed", step, format!("read item {:?} differs from the preceding item {:?} but got its index", syms, cz_last.as_ref().unwrap().1));
+                                    return out;
+                                }
+                            }
+                            // it must read back
+                            let rd = catch(|| <CollapseSequence<HuffmanContainer<B>> as Obs>::obs(cz.index(ci), &vals, &mut cx));
+                            if !matches!(rd, Ok(Ok(()))) {
+                                out.fail = fail("collapse-read-differs", step, format!("item {:?} pushed into the collapsing region does not read back", syms));
+                                return out;
+                            }
+                            cz_last = Some((ci, syms));
+                        }
+                    }
                 }
                 HOp::Copy { src, h, dst, via_owned } => {
                     if pop.len() < 2 {
@@ -570,7 +658,7 @@ impl Scenario for HuffScen {
             trained = true;
         }
         for i in 0..n {
-            let wcopy = if self.prop == 14 { 40 } else { 6 };
+            let wcopy = if matches!(self.prop, 14 | 11) { 40 } else { 6 };
             let wclone = if self.prop == 9 { 20 } else { 3 };
             let c = if i == 0 { 0 } else if !trained { rng.below(3) } else { rng.weighted(&[1, 60, if matches!(self.prop, 14 | 9) { 16 } else { 8 }, 3, wclone, wcopy]) };
             let t = rng.below(8);
@@ -593,7 +681,23 @@ impl Scenario for HuffScen {
                 }
                 3 => ops.push(HOp::Clear { t }),
                 4 => ops.push(if rng.coin() { HOp::Clone { t } } else { HOp::CloneFrom { src: t, dst: rng.below(8) } }),
-                _ => ops.push(HOp::Copy { src: t, h: rng.below(1 << 16), dst: rng.below(8), via_owned: rng.coin() }),
+                _ => {
+                    if self.prop == 11 || rng.chance(1, 10) {
+                        match rng.below(8) {
+                            0 => ops.push(HOp::CzMerge),
+                            _ => {
+                                // often the same logical item twice in a row, taken from different containers
+                                let h = rng.below(1 << 16);
+                                ops.push(HOp::CzCopy { src: t, h });
+                                if rng.coin() {
+                                    ops.push(HOp::CzCopy { src: rng.below(8), h });
+                                }
+                            }
+                        }
+                    } else {
+                        ops.push(HOp::Copy { src: t, h: rng.below(1 << 16), dst: rng.below(8), via_owned: rng.coin() })
+                    }
+                }
             }
         }
         ops
@@ -623,6 +727,8 @@ impl Scenario for HuffScen {
             HOp::Clone { t } => json!({"op":"Clone","t":t}),
             HOp::CloneFrom { src, dst } => json!({"op":"CloneFrom","src":src,"dst":dst}),
             HOp::Copy { src, h, dst, via_owned } => json!({"op":"Copy","src":src,"h":h,"dst":dst,"via_owned":via_owned}),
+            HOp::CzCopy { src, h } => json!({"op":"CzCopy","src":src,"h":h}),
+            HOp::CzMerge => json!({"op":"CzMerge"}),
         }
     }
     fn op_from_json(&self, j: &J) -> Option<HOp> {
@@ -634,6 +740,8 @@ impl Scenario for HuffScen {
             "Clear" => HOp::Clear { t: u("t")? },
             "Clone" => HOp::Clone { t: u("t")? },
             "CloneFrom" => HOp::CloneFrom { src: u("src")?, dst: u("dst")? },
+            "CzCopy" => HOp::CzCopy { src: u("src")?, h: u("h")? },
+            "CzMerge" => HOp::CzMerge,
             "Copy" => HOp::Copy { src: u("src")?, h: u("h")?, dst: u("dst")?, via_owned: j.get("via_owned")?.as_bool()? },
             _ => return None,
         })
